@@ -633,5 +633,22 @@ func (n *asNode) step(epochTick bool) (crashed string) {
 func (n *asNode) startup(timeout time.Duration) error {
 	ctx, cancel := context.WithTimeout(bg, timeout)
 	defer cancel()
-	return n.a.VerifStartup(ctx)
+	// the reconciliation retries until it succeeds or ctx ends; remember the first error it reports (the last one is
+	// usually just "context deadline exceeded")
+	done := make(chan error, 1)
+	go func() { done <- n.a.VerifStartup(ctx) }()
+	first, stale := "", n.a.VerifLastError()
+	for {
+		select {
+		case err := <-done:
+			if err != nil && first != "" {
+				return errors.New(first)
+			}
+			return err
+		case <-time.After(500 * time.Microsecond):
+			if e := n.a.VerifLastError(); first == "" && e != stale {
+				first = e
+			}
+		}
+	}
 }
